@@ -737,10 +737,16 @@ ClassOf(t) ==
 \* a CommonJS module exports (natively: dropped from the namespace)
 AmbStarCjs ==
   \E m \in 1..NM : Kind(m) = "esm" /\ \E x \in AllNames : Res(m, x, {}) = AmbR /\ ResStatic(m, x, {}) # AmbR
+\* an ES module with a run-time export set that is in a static import cycle:
+\* natively its names exist when the cycle is linked, in a bundle they are
+\* copied when its body runs (another member of the cycle may look earlier)
+CycDyn ==
+  \E m \in 1..NM : DynFallback(m) /\ \E j \in DOMAIN Requested(m) : m \in Closure(Requested(m)[j])
 Features ==
   UNION {UNION {{w \o ":" \o Body(m)[i].op \o ">" \o ClassOf(Body(m)[i].t) : w \in WrapOf(m)} :
                 i \in {j \in Idx(m) : Body(m)[j].t # 0}} : m \in 1..NM}
   \cup (IF AmbStarCjs THEN {"amb:star>cjs"} ELSE {})
+  \cup (IF CycDyn THEN {"cyc:esmdyn"} ELSE {})
 
 RealKinds == [m \in 1..NM |-> Kind(m)]
 CaseRec == [spec |-> "ModuleSem", kinds |-> RealKinds, bodies |-> bodies, trace |-> rs.trace,
